@@ -244,6 +244,8 @@ def run_case(c):
         m.scramble_rng = random.Random(c["seed"] + "/scramble")
     m.strobe_semantics = False
     m.use_last = True      # the end-of-burst hint is part of the command payload (consumed by an up-converter behind the crossing)
+    if r.random() < 0.35:
+        m.data_ahead = r.choice([2, 8, 24])     # write data streamed ahead of the commands: the data FIFO can fill before the command FIFO
     if c.get("rdata_ready_prob"):
         m.rdata_ready_prob, m.rdata_rng = c["rdata_ready_prob"], random.Random(c["seed"] + "/rbp")
         m.max_reads_outstanding = max(1, c["rdata_depth"] - 2)
